@@ -452,11 +452,11 @@ def part_b(tier: str) -> list[dict]:
     obs = []
     if tier == 'quick':
         for topo in ('flat1', 'flat2'):
-            for sh in ('raise_leaf', 'raise_nested', 'raise_late'):
+            for sh in ('raise_leaf', 'raise_nested', 'raise_late', 'raise_deep'):
                 obs.append(ob('B/msg/%s/%s/K1' % (topo, sh), topo, [sh], 'tables', 1, 200))
     else:
         for topo in ('flat1', 'flat2', 'flat3', 'mgr2x1', 'mgr1x2'):
-            for sh in ('raise_leaf', 'raise_nested', 'raise_late'):
+            for sh in ('raise_leaf', 'raise_nested', 'raise_late', 'raise_deep'):
                 obs.append(ob('B/msg/%s/%s/K2' % (topo, sh), topo, [sh], 'tables', 2, 600, maxrank=3))
         obs.append(ob('B/msg/flat2/raise+other-client/K2', 'flat2', ['raise_leaf', 'map2'], 'tables', 2, 600))
         obs.append(ob('B/line/flat2/raise_leaf/K1', 'flat2', ['raise_leaf'], 'tables', 1, 600, line=True, maxrank=1))
